@@ -457,6 +457,14 @@ def owner_path_lambda_grid(entity, max_hops=2):
             for b in bodies:
                 lams.append(("lam", owner, "any", "x", b))
                 lams.append(("lam", owner, "all", "x", b))
+            # the same collection twice as the two operands of one and / or (different variables,
+            # different bodies): a parent whose children split between the two predicates
+            for qa in ("any", "all"):
+                for qb in ("any", "all"):
+                    for conn in ("and", "or"):
+                        for ba, bb in ((bodies[0], bodies[1]), (bodies[1], bodies[2])):
+                            by = T.map_term(lambda n: ("id", "y", ()) if n == ("id", "x", ()) else n, bb)
+                            out.append(("bool", conn, ("lam", owner, qa, "x", ba), ("lam", owner, qb, "y", by)))
             for lam in lams:
                 out.append(lam)
                 out.append(("bool", "and", lam, root_pred))
